@@ -406,6 +406,24 @@ func variants(thorough bool) []variant {
 	// recorded ones, only the binding is this connection's. The signature does not cover this
 	// binding - a receiver that remembers "this identity with this signature was fine" accepts it
 	// (seed C16-p).
+	// the identity the receiver accepted on the honest connection a moment ago, on the attacker's
+	// own binding, signed by somebody else's registered key / with the recorded signature's bytes
+	// flipped: having proved itself on one connection proves nothing on another
+	add("replay", "identity-of-accepted-connection-foreign-signature", func(e *env, b, ob, of []byte) ([]byte, uint16, string) {
+		h := validHandshake(e.ids[1], b)
+		netlib.SignHandshake(&h, e.ids[0].key())
+		return frame(h), 0, ""
+	})
+	add("replay", "identity-of-accepted-connection-recorded-signature-flipped", func(e *env, b, ob, of []byte) ([]byte, uint16, string) {
+		var h comm.Handshake
+		if err := h.Read(bytes.NewReader(of)); err != nil {
+			panic(err)
+		}
+		h.TLSBinding = append([]byte(nil), b...)
+		h.Signature = append([]byte(nil), h.Signature...)
+		h.Signature[len(h.Signature)-1] ^= 1
+		return frame(h), 0, ""
+	})
 	for _, redate := range []bool{false, true} {
 		redate := redate
 		name := "recorded-handshake-rebound-to-own-connection"
